@@ -3,7 +3,17 @@
    _write_cache (OrderedDict store + eviction loop).  Every decision is taken by
    a kernel of Gen/KMemo.v regenerated from the source.  State types are those
    of Spec/Memo.v (the implementation's fields _cache, _ignore_cache_once, the
-   options and the cache folders are exactly the spec's vocabulary). *)
+   options and the cache folders are exactly the spec's vocabulary).
+
+   Two readings of what the stores hold.  Section MemoModel: the value itself (by value; the pickle round trip is
+   collapsed).  Section MemoSerialised, as the code does it: both stores hold pickle.dumps(retval) -- _cache[memkey]
+   = pickle.dumps(retval), pickle.dump(retval, fd) -- a hit returns pickle.loads(...) of the stored bytes, a miss
+   returns retval itself, cache_size adds up sys.getsizeof of the BYTES; _read_cache / _write_cache are the same
+   functions, at the type of pickles.  Proofs/MemoSerialFacts.v: under loads (dumps v) = v the serialised model
+   produces the trace of the by-value model (so every theorem about traces holds for it), and what a hit returns
+   is rebuilt from the stored bytes.  (Isolation -- mutating a returned object never changes a later result -- is
+   then a fact about types: no state of the serialised model holds a value, only pickles.  Coq values cannot be
+   mutated, so this says nothing about aliasing in the implementation: that is probed by the harness.) *)
 From Coq Require Import ZArith List Bool.
 From DM Require Import Gen.KMemo Spec.Memo.
 Import ListNotations.
@@ -146,3 +156,56 @@ Section MemoModel.
 End MemoModel.
 
 Arguments ICall {A}. Arguments IClear {A}.
+
+Section MemoSerialised.
+  Variables (A K V P F : Type).
+  Variable f : A -> V.
+  Variable key_of : A -> K.
+  Variable thunks : A -> nat.
+  Variable dumps : V -> P.               (* pickle.dumps(retval) / pickle.dump(retval, fd) *)
+  Variable loads : P -> V.               (* pickle.loads(...) / pickle.load(fd) *)
+  Variable psize : P -> Z.               (* sys.getsizeof of the pickled bytes *)
+  Variables (keqb : K -> K -> bool) (feqb : F -> F -> bool).
+
+  Definition mk_event_s (o : opts K F) (v : V) (ran : bool) (forced : nat) (st : inst K P) (d : list (F * K * P))
+    : event K V :=
+    {| e_ret := v; e_ran := ran; e_forced := forced; e_keys := map fst (cache st);
+       e_csize := total K P psize (cache st); e_files := dkeys K P F feqb (folder o) d |}.
+
+  (* _call_without_arguments *)
+  Definition icall_s (o : opts K F) (st : inst K P) (d : list (F * K * P)) (a : A)
+    : event K V * inst K P * list (F * K * P) :=
+    let k := memkey A K F key_of o a in
+    let '(hit, st1, d1) := read_cache K P F keqb feqb o st d k in
+    match hit with
+    | Some p => (mk_event_s o (loads p) false 0 st1 d1, st1, d1)          (* a fresh object rebuilt from the bytes *)
+    | None =>
+        let forced := if k_lazy_test (lazy o) then thunks a else 0%nat in
+        let v := f a in
+        let '(st2, d2) := write_cache K P F psize keqb feqb o st1 d1 k (dumps v) in
+        (mk_event_s o v true forced st2 d2, st2, d2)                       (* the caller gets retval itself *)
+    end.
+
+  Definition wstep_s (w : world K P F) (p : op A K F) : world K P F * tev A K V F :=
+    match p with
+    | ONew o => ({| insts := insts w ++ [(o, fresh)]; disk := disk w |}, TNew o)
+    | OClear i =>
+        match nth_error (insts w) i with
+        | Some (o, st) => (upd K P F w i o (iclear K P st) (disk w), TClear i)
+        | None => (w, TClear i)
+        end
+    | OCall i a =>
+        match nth_error (insts w) i with
+        | Some (o, st) =>
+            let '(ev, st', d') := icall_s o st (disk w) a in
+            (upd K P F w i o st' d', TCall i a ev)
+        | None => (w, TClear i)
+        end
+    end.
+
+  Fixpoint wrun_s (w : world K P F) (ops : list (op A K F)) : world K P F * list (tev A K V F) :=
+    match ops with
+    | [] => (w, [])
+    | p :: r => let '(w1, t) := wstep_s w p in let '(w2, tr) := wrun_s w1 r in (w2, t :: tr)
+    end.
+End MemoSerialised.
